@@ -20,4 +20,19 @@ def Integration.run (I : Integration) (rq : Req) (base : Sid) (closed : List Sid
 
 def Integration.trace (I : Integration) (rq : Req) (base : Sid) : List Ev := (I.run rq base).trace
 
+/-- what persists between requests: the provider's scope counter and the scopes closed so far -/
+structure Sys where
+  nextSid : Sid := 0
+  closed : List Sid := []
+  deriving Repr
+
+def Integration.step (I : Integration) (sys : Sys) (rq : Req) : Sys × List Ev :=
+  let st := I.run rq sys.nextSid sys.closed
+  (⟨st.nextSid, st.closed⟩, st.trace)
+
+/-- a sequence of requests against the same provider, one after the other -/
+def Integration.runSeq (I : Integration) : Sys → List Req → List (List Ev)
+  | _, [] => []
+  | sys, rq :: rqs => (I.step sys rq).2 :: I.runSeq (I.step sys rq).1 rqs
+
 end Godi.Mw
